@@ -207,6 +207,10 @@ LossPairOK(a, b) == a.s <= b.s => a.l <= b.lhi
 \* Named deviation F-LOSS-1: across the hand-over from the linear regime to the range regime
 \* the loss can DROP (the linear approximation overestimates when dE/dx grows with E).
 LossSwitchDrop(a, b) == a.lin /\ ~b.lin /\ a.s <= b.s /\ a.l > b.lhi
+\* Named deviation F-LOSS-2: in the range regime the loss E - E(range - step) of a very short step
+\* (possible only for linear_loss_limit ~ 0) is NEGATIVE by the round-trip error of
+\* inverse(range(E)): bounded below by zlo = -1024 eps E (tolerance table: C_NEG = 1024).
+LossNegativeRounding(r, st) == st.fin /\ ~st.lin /\ st.l < r.zero /\ r.zlo <= st.l
 LossBreaks(steps) == {c \in (DOMAIN steps) \X (DOMAIN steps) :
                         steps[c[1]].fin /\ steps[c[2]].fin /\ ~LossPairOK(steps[c[1]], steps[c[2]])}
 
